@@ -422,6 +422,53 @@ pub fn run(tier: Tier) -> i32 {
         ("expected", J::s("run fails, error names 'chr2:7', stdout empty")),
     ]));
 
+    // scripts over the public reader interface that concern this property (shared with C11)
+    {
+        let (n, viols) = super::c11::scripts_for("C08", "ploidy", tier);
+        for (k, w, j) in viols {
+            rep.violation(k, w, j);
+        }
+        rep.part(Part {
+            name: "lib: records around one with a non-diploid genotype".into(),
+            evaluations: n,
+            nontrivial: n,
+            note: "every sequence of 1..3 (thorough 4) symbols over {six record kinds, a record with a non-diploid genotype in the first / third column} containing at least one such record, under six set-ups, read on after the error: the faulty record is an error and contributes nothing, every other record is classified as if it stood alone".into(),
+            exhaustive: true,
+            extra: vec![],
+        });
+    }
+    // the raw-value constructor of the genotype type: 0, 1, 2 and nothing else
+    {
+        use sfs_core::input::genotype::Genotype;
+        let mut raws: Vec<usize> = (0..=70_000).collect();
+        raws.extend([1usize << 31, (1 << 32) - 1, 1 << 32, (1 << 32) + 1, (1 << 32) + 2, usize::MAX - 2, usize::MAX - 1, usize::MAX]);
+        let mut n = 0u64;
+        for raw in raws {
+            n += 1;
+            let expect = match raw {
+                0 => Some(Genotype::Zero),
+                1 => Some(Genotype::One),
+                2 => Some(Genotype::Two),
+                _ => None,
+            };
+            let got = Genotype::try_from_raw(raw);
+            if got != expect {
+                rep.violation(
+                    format!("C08|lib|try_from_raw|{}", if raw > 255 { ">255" } else { "<=255" }),
+                    format!("Genotype::try_from_raw({raw}) = {got:?}, expected {expect:?}"),
+                    J::obj([("kind", J::s("c08-raw")), ("raw", J::s(raw.to_string()))]),
+                );
+            }
+        }
+        rep.part(Part {
+            name: "lib: Genotype::try_from_raw".into(),
+            evaluations: n,
+            nontrivial: n,
+            note: "every raw value 0..=70 000 and values around 2^31, 2^32 and the maximum: 0, 1, 2 are the three genotypes, everything else is None".into(),
+            exhaustive: true,
+            extra: vec![],
+        });
+    }
     // L2
     let scratch = Scratch::new("c08");
     let mut cj: Vec<(usize, Container, bool)> = Vec::new();
@@ -551,6 +598,15 @@ pub fn run(tier: Tier) -> i32 {
 }
 
 pub fn replay(case: &J) -> Option<Vec<String>> {
+    if case.get("kind").and_then(|k| k.as_str()) == Some("c08-raw") {
+        use sfs_core::input::genotype::Genotype;
+        let raw: usize = case.get("raw")?.as_str()?.parse().ok()?;
+        let ok = matches!((raw, Genotype::try_from_raw(raw)), (0, Some(Genotype::Zero)) | (1, Some(Genotype::One)) | (2, Some(Genotype::Two))) || (raw > 2 && Genotype::try_from_raw(raw).is_none());
+        return Some(if ok { vec![] } else { vec![format!("C08|lib|try_from_raw :: {raw} -> {:?}", Genotype::try_from_raw(raw))] });
+    }
+    if case.get("kind").and_then(|k| k.as_str()) == Some("c08-script") {
+        return super::c11::replay_script(case);
+    }
     let gt = case.get("gt")?.as_str()?.to_string();
     let cname = case.get("container")?.as_str()?;
     let c = Container::all().into_iter().find(|c| c.name() == cname)?;
